@@ -236,7 +236,10 @@ type refinement struct {
 }
 
 func (p *Prog) refinementsOf(fn *ssa.Function) []refinement {
-	if p.addrTaken == nil || !p.addrTaken[fn] || fn.Signature.Recv() != nil {
+	if fn.Signature.Recv() != nil {
+		return p.ifaceRefinementsOf(fn)
+	}
+	if p.addrTaken == nil || !p.addrTaken[fn] {
 		return nil
 	}
 	var names []string
@@ -285,4 +288,37 @@ func (e *Enc) assumeRefinedRequires() {
 			e.assert(t.T)
 		}
 	}
+}
+
+// ifaceRefinementsOf: contracts `iface I.M ...` of package interfaces that the receiver type of method fn
+// implements. Their ensures are obligations on fn's body (behavioural subtyping), their requires are assumed
+// there (they are obligations at every invoke of I.M).
+func (p *Prog) ifaceRefinementsOf(fn *ssa.Function) []refinement {
+	if fn.Synthetic != "" || !p.isLocalFn(fn) {
+		return nil
+	}
+	recv := fn.Signature.Recv().Type()
+	var names []string
+	for n, fc := range p.Contracts.Funcs {
+		if fc.Kind == "iface" && fc.Flags["refine"] && len(fc.Ens) > 0 && strings.HasSuffix(n, "."+fn.Name()) {
+			names = append(names, n)
+		}
+	}
+	sort.Strings(names)
+	var out []refinement
+	for _, n := range names {
+		in := strings.TrimSuffix(n, "."+fn.Name())
+		obj := p.Types.Scope().Lookup(in)
+		if obj == nil {
+			continue
+		}
+		it, ok := obj.Type().Underlying().(*types.Interface)
+		if !ok {
+			continue
+		}
+		if types.Implements(recv, it) {
+			out = append(out, refinement{n, p.Contracts.Funcs[n]})
+		}
+	}
+	return out
 }
